@@ -77,18 +77,27 @@ structure InvL (C : List Feature) (c : Conf) : Prop where
   listedTodo : ∀ todo, c.pc = .listing todo →
     c.listed ++ todo.filter (eligible c.st) = C.filter (eligible c.st)
   listedFlush : c.pc = .flush → c.listed = C.filter (eligible c.st)
+  listedBlocked : ∀ st fs, c.pc = .blocked (.listOut st fs) → fs = C.filter (eligible st)
   outOK : ∀ st fs ok, Ev.listOut st fs ok ∈ c.tr → fs = C.filter (eligible st)
 
 theorem invL_step (C : List Feature) (O : Oracle) (c : Conf) (h : InvL C c) : InvL C (step C O c) := by
-  obtain ⟨h4, h5, h6⟩ := h
+  obtain ⟨h4, h5, h5b, h6⟩ := h
   step_all
   all_goals (constructor <;> (try dsimp only))
   all_goals first
     | exact h4
     | exact h5
+    | exact h5b
     | exact h6
     | (intro h; cases h; done)
     | (intro _ h; cases h; done)
+    | (intro _ _ h; cases h; done)
+    | (intro _ _ h; cases h; exact h5 ‹_›)
+    | (intro st fs ok hm
+       simp only [List.mem_cons] at hm
+       rcases hm with hm | hm
+       · cases hm; exact h5b _ _ ‹_›
+       · exact h6 _ _ _ hm)
     | (intro st fs ok hm
        simp only [List.mem_cons] at hm
        rcases hm with hm | hm
